@@ -289,7 +289,9 @@ func (f *File) AddChild(child Box, boxStartPos uint64) {
 	case *EmsgBox:
 		// emsg box is only added at the start of a fragment (inside a segment).
 		// The case that a segment starts without an emsg is also handled.
-		f.startSegmentIfNeeded(box, boxStartPos)
+		if !f.fragmentStartedWithoutMoof() {
+			f.startSegmentIfNeeded(box, boxStartPos)
+		}
 		lastSeg := f.LastSegment()
 		if len(lastSeg.Fragments) == 0 {
 			lastSeg.AddFragment(&Fragment{StartPos: boxStartPos})
@@ -300,7 +302,9 @@ func (f *File) AddChild(child Box, boxStartPos uint64) {
 		f.isFragmented = true
 		moof := box
 		moof.StartPos = boxStartPos
-		f.startSegmentIfNeeded(moof, boxStartPos)
+		if !f.fragmentStartedWithoutMoof() { // An emsg box may already have started this fragment (and its segment)
+			f.startSegmentIfNeeded(moof, boxStartPos)
+		}
 		currSeg := f.LastSegment()
 		lastFrag := currSeg.LastFragment()
 		if lastFrag == nil || lastFrag.Moof != nil {
@@ -332,6 +336,16 @@ func moovLooksFragmented(moov *MoovBox) bool {
 		return moov.Mvex != nil
 	}
 	return len(trak.Mdia.Minf.Stbl.Stts.SampleCount) == 0
+}
+
+// fragmentStartedWithoutMoof tells whether the last fragment was started by an emsg box and still waits for its moof.
+func (f *File) fragmentStartedWithoutMoof() bool {
+	lastSeg := f.LastSegment()
+	if lastSeg == nil {
+		return false
+	}
+	lastFrag := lastSeg.LastFragment()
+	return lastFrag != nil && lastFrag.Moof == nil
 }
 
 // startSegmentIfNeeded starts a new segment if there is none or if position match with sidx of tfra.
